@@ -6,6 +6,7 @@ import GoSecs.Drv.Secs2
 import GoSecs.Drv.Supervisor
 import GoSecs.Drv.Hsms
 import GoSecs.Drv.Construct
+import GoSecs.Drv.Secs1
 
 open GoSecs
 
@@ -14,7 +15,8 @@ def handlers : List (String → List String → Option String) := [
   Drv.Secs2.handle,
   Drv.Supervisor.handle,
   Drv.Hsms.handle,
-  Drv.Construct.handle
+  Drv.Construct.handle,
+  Drv.Secs1.handle
 ]
 
 def dispatch (line : String) : String :=
